@@ -679,6 +679,9 @@ SCALE = {'scaled': 0.01}
 ENUMS = {'enum': {'off': 0, 'low': 1, 'high': 5}, 'tupnest.0': {'x': 1, 'y': 2}}
 
 
+TEXTSAFE = False   # doubles whose display text (6 significant digits) is exact: the text form itself belongs to C02
+
+
 def _gen_value(kind, rnd, partial=True, path=None):
     """a valid value of the kind, as abstract tree (what TLC compares) and the concrete form a caller passes"""
     path = path or kind
@@ -687,9 +690,13 @@ def _gen_value(kind, rnd, partial=True, path=None):
         return {'j': 'atom', 'v': txt}, conc
     if kind == 'double':
         v = rnd.choice([0.0, 1.5, -2.25, 1000.0, -1000.0, 0.1, 1e-9, round(rnd.uniform(-1000, 1000), rnd.randint(0, 6))])
+        if TEXTSAFE:
+            v = rnd.choice([0.0, 1.5, -2.25, 1000.0, -1000.0, 0.1, 1e-9, 0.000125, round(rnd.uniform(-99, 99), 3)])
         return atom('f:' + repr(float(v)), rnd.choice([v, int(v)]) if v == int(v) else v)
     if kind == 'cdouble':
         v = rnd.choice([0.0, 2.5, -1e9, 1e300, 5e-324, round(rnd.uniform(-1e6, 1e6), 3)])
+        if TEXTSAFE:
+            v = rnd.choice([0.0, 2.5, -1e9, 1e300, 1e-300, 123456.0, round(rnd.uniform(-99, 99), 3)])
         return atom('f:' + repr(float(v)), v)
     if kind in ('int', 'digit'):
         lo, hi = (-50, 50) if kind == 'int' else (0, 9)
@@ -781,24 +788,59 @@ def a_tree(kind, v, path=None):
     raise MachineryError('unknown kind ' + kind)
 
 
-def _make_driver_class():
+BASE = {'value': 'double'}     # parameter name -> kind of its datatype (a predefined accessible name among the custom ones)
+PKINDS = KINDS + ['value']
+
+
+def _make_driver_class(without=()):
+    """a module whose driver functions record what they receive and return / raise what the script says"""
+    from frappy.datatypes import IntRange
     from frappy.modules import Module, Parameter
+    from frappy.params import Command
+
+    def scripted(self, key):
+        x = self.script[key]
+        if callable(x):     # a factory of exceptions: a fresh one every time
+            raise x()
+        return x
     attrs = {'enablePoll': False}
-    for kind, dt in _datatypes().items():
-        attrs[kind] = Parameter('parameter of kind ' + kind, dt, readonly=False, default=dt.default)
+    for name in PKINDS:
+        kind = BASE.get(name, name)
+        dt, dta, dtr = (_datatypes()[kind] for _ in range(3))
+        attrs[name] = Parameter('parameter of kind ' + kind, dt, readonly=False, default=dt.default)
 
-        def w(self, value, kind=kind):
-            self.rec.append(('w', kind, value))
-            return self.script[kind]
+        def w(self, value, name=name):
+            self.rec.append(('w', name, value))
+            return scripted(self, name)
 
-        def r(self, kind=kind):
-            self.rec.append(('r', kind))
-            x = self.script[kind]
-            if isinstance(x, Exception):
-                raise x
-            return x
-        attrs['write_' + kind] = w
-        attrs['read_' + kind] = r
+        def r(self, name=name):
+            self.rec.append(('r', name))
+            return scripted(self, name)
+
+        def mkcmd(name=name, kind=kind):
+            if kind == 'struct':    # struct members arrive as keywords; defaults make them optional
+                def c(self, a, b=None, c=None):
+                    """command with a struct argument"""
+                    value = {k: v for k, v in (('a', a), ('b', b), ('c', c)) if v is not None}
+                    self.rec.append(('c', name, value))
+                    return scripted(self, 'c_' + name)
+            else:
+                def c(self, *args):
+                    """command with argument and result of the kind"""
+                    self.rec.append(('c', name, tuple(args) if kind in ('tuple', 'tupnest') else args[0]))
+                    return scripted(self, 'c_' + name)
+            return c
+        c = mkcmd()
+        attrs['write_' + name] = w
+        attrs['read_' + name] = r
+        if 'c_' + name not in without:
+            attrs['c_' + name] = Command(dta, result=dtr)(c)
+
+    def c_noarg(self):
+        """command without argument"""
+        self.rec.append(('c', 'noarg', None))
+        return scripted(self, 'c_noarg')
+    attrs['c_noarg'] = Command(result=IntRange(-50, 50))(c_noarg)
     return type('GenDriver', (Module,), attrs)
 
 
@@ -890,6 +932,79 @@ def _attempt(fn, before=None, tries=3):
     return None, exc, tries
 
 
+def _caught(fn):
+    """the error a request ends with (the expected outcome of a request the driver refuses)"""
+    from frappy.errors import SECoPError
+    try:
+        fn()
+    except SECoPError as e:
+        return e
+    return None
+
+
+class _Rig:
+    """runs requests against the nodes, collects the records TLC judges"""
+
+    def __init__(self, drv, clients, pxclient, records, rnd):
+        self.drv, self.clients, self.pxclient, self.records, self.rnd = drv, clients, pxclient, records, rnd
+        self.slow = {}      # path -> requests that ran into a time-out every time (the client may be unusable: 10 s each)
+
+    @staticmethod
+    def item(base):
+        return lambda item: (a_tree(base, item.value) if item.readerror is None
+                             else {'j': 'atom', 'v': '?%r' % (item.readerror,)})
+
+    @staticmethod
+    def error(e):
+        if e is None:
+            return {'cls': '?no error', 'text': ''}
+        return {'cls': type(e).__name__, 'text': e.args[0] if len(e.args) == 1 else repr(e.args)}
+
+    @classmethod
+    def readerror(cls, item):
+        return cls.error(item.readerror)
+
+    def request(self, rec, fn, conv, received=None):
+        """one request (repeated on time-outs); rec['cache'] = what the caller / the client cache ends up with"""
+        path = rec['path']
+        if self.slow.get(path):
+            return None
+        rec['ev'] = 'e2e'
+        iserr = rec['op'] in ('readerr', 'writeerr')
+        res, e, rec['attempts'] = _attempt(fn, before=self.drv.rec.clear)
+        if e is None:
+            rec['cache'] = conv(res)
+        else:
+            txt = '?raised %r' % (e,)
+            rec['cache'] = {'cls': txt, 'text': ''} if iserr else {'j': 'atom', 'v': txt}
+            if isinstance(e, TRANSIENT):
+                self.slow[path] = 1
+        if received:
+            tag, name, base = received
+            got = [r for r in self.drv.rec if r[0] == tag and r[1] == name]
+            rec['nrecv'] = len(got)
+            rec['received'] = ({'j': 'atom', 'v': '?nothing'} if not got else {'j': 'atom', 'v': 'none'} if base is None
+                               else a_tree(base, got[-1][2]))
+        self.records.append(rec)
+        return res if e is None else None
+
+    def fence(self, path, client):
+        """everything the node sent before now has been processed by the client when its ping is answered"""
+        if self.slow.get(path):
+            return False
+        _, e, _ = _attempt(lambda: client.request('ping', 'fence'))
+        if e is not None:
+            self.slow[path] = 1
+        return e is None
+
+    def observe(self, rec, client, mod, base):
+        rec['ev'] = 'e2e'
+        item = client.cache.get((mod, rec['kind']))
+        rec['cache'] = self.item(base)(item) if item is not None else {'j': 'atom', 'v': '?not cached'}
+        rec['attempts'] = 1
+        self.records.append(rec)
+
+
 def _e2e_batch(arg):
     """one rig: node 1 (driver module), node 2 (proxy module in front of it), three clients"""
     seed, n_per_kind, budget = arg
@@ -917,9 +1032,16 @@ def _e2e_batch(arg):
     if 'px' not in n2.modules:
         n2.close()
         frappy.io.HasIO.ioDict.clear()
-        n2 = Node('n2', {'px': {'cls': frappy.proxy.proxy_class(Drv), 'description': 'proxy', 'module': 'drv', 'uri': uri}})
+        try:
+            pcls = frappy.proxy.proxy_class(Drv)
+        except Exception as e:
+            # a remote class with a struct-argument command cannot be proxied: go on without that command
+            notes['proxy_class_error'] = repr(e)
+            pcls = frappy.proxy.proxy_class(_make_driver_class(without=('c_struct',)))
+        n2 = Node('n2', {'px': {'cls': pcls, 'description': 'proxy', 'module': 'drv', 'uri': uri}})
         if n2.errors or 'px' not in n2.modules:
             raise MachineryError('proxy node does not start: %r' % (n2.errors,))
+    nocmd = set() if 'c_struct' in n2.modules['px'].commands else {'struct'}
     clients = {}
     try:
         clients = {'direct': (_client(n1.port, False), 'drv'), 'direct_active': (_client(n1.port, True), 'drv'),
@@ -930,73 +1052,94 @@ def _e2e_batch(arg):
             if _time.time() > deadline:
                 raise MachineryError('proxy did not connect to node 1: state %r' % pxclient.state)
             _time.sleep(0.01)
-        prev = {k: a_tree(k, drv.parameters[k].value) for k in KINDS}
-        slow = {}       # path -> number of requests that ran into a time-out (the client may be unusable)
-        dead = set()    # (kind, path) whose requests run into time-outs: one record is enough (10 s each)
+        rig = _Rig(drv, clients, pxclient, records, rnd)
+        active2 = clients['proxy'][0].activate
         t_end = _time.time() + budget
-        for kind in KINDS:
+
+        def fresh(kind, partial=False, textsafe=False):
+            global TEXTSAFE
+            TEXTSAFE = textsafe
+            try:
+                return _gen_value(BASE.get(kind, kind), rnd, partial=partial)
+            finally:
+                TEXTSAFE = False
+
+        for kind in PKINDS:
+            base = BASE.get(kind, kind)
             for i in range(n_per_kind):
                 if _time.time() > t_end:
                     notes['aborted'] = 'time budget of %d s used up at kind %s' % (budget, kind)
                     break
+                # -- write (setParameter) on every path
                 for path, (c, mod) in clients.items():
-                    if path == 'direct_active' and i % 4 or (kind, path) in dead or slow.get(path, 0) >= 1:
+                    if path == 'direct_active' and i % 4:
                         continue
-                    sent_a, sent_c = _gen_value(kind, rnd, partial=True)
-                    ret_a, ret_c = _gen_value(kind, rnd, partial=False)
-                    drv.script[kind] = ret_c
-                    rec = {'ev': 'e2e', 'op': 'write', 'kind': kind, 'path': path, 'sent': sent_a, 'prev': prev[kind],
-                           'returned': ret_a, 'nrecv': 0, 'received': {'j': 'atom', 'v': '?nothing'},
-                           'cache': {'j': 'atom', 'v': '?none'}, 'concrete': repr(sent_c)}
-                    item, e, rec['attempts'] = _attempt(lambda: c.setParameter(mod, kind, sent_c), before=lambda: drv.rec.clear())
-                    if e is None:
-                        rec['cache'] = a_tree(kind, item.value) if item.readerror is None else {'j': 'atom', 'v': '?%r' % (item.readerror,)}
-                    else:
-                        rec['cache'] = {'j': 'atom', 'v': '?raised %r' % (e,)}
-                        if isinstance(e, TRANSIENT):
-                            dead.add((kind, path))
-                            slow[path] = slow.get(path, 0) + 1
-                    got = [r for r in drv.rec if r[0] == 'w' and r[1] == kind]
-                    rec['nrecv'] = len(got)
-                    if got:
-                        rec['received'] = a_tree(kind, got[-1][2])
-                    prev[kind] = ret_a
-                    records.append(rec)
-                # read path (a proxy serves reads from its cache: direct only)
-                if (kind, 'direct') in dead or slow.get('direct', 0) >= 1:
-                    continue
+                    sent_a, sent_c = fresh(kind, True)
+                    ret_a, drv.script[kind] = fresh(kind)
+                    rig.request({'op': 'write', 'kind': kind, 'path': path, 'sent': sent_a, 'returned': ret_a,
+                                 'concrete': repr(sent_c)},
+                                lambda: c.setParameter(mod, kind, sent_c), rig.item(base), received=('w', kind, base))
+                # -- read: readParameter / getParameter
                 c, mod = clients['direct']
-                ret_a, ret_c = _gen_value(kind, rnd, partial=False)
-                drv.script[kind] = ret_c
-                rec = {'ev': 'e2e', 'op': 'read', 'kind': kind, 'path': 'direct', 'returned': ret_a}
-                item, e, rec['attempts'] = _attempt(lambda: c.readParameter(mod, kind))
-                if e is None:
-                    rec['cache'] = a_tree(kind, item.value) if item.readerror is None else {'j': 'atom', 'v': '?%r' % (item.readerror,)}
-                else:
-                    rec['cache'] = {'j': 'atom', 'v': '?raised %r' % (e,)}
-                    if isinstance(e, TRANSIENT):
-                        dead.add((kind, 'direct'))
-                        slow['direct'] = slow.get('direct', 0) + 1
-                prev[kind] = ret_a
-                records.append(rec)
-            # error path
-            if (kind, 'direct') in dead or slow.get('direct', 0) >= 1:
-                continue
+                ret_a, drv.script[kind] = fresh(kind, textsafe=True)
+                item = rig.request({'op': 'read', 'kind': kind, 'path': 'direct', 'returned': ret_a},
+                                   (lambda: c.getParameter(mod, kind)) if i % 2 else (lambda: c.readParameter(mod, kind)),
+                                   rig.item(base))
+                # -- write of the text form of a cache item (setParameterFromString)
+                if item is not None and item.readerror is None:
+                    text = str(item)
+                    ret2_a, drv.script[kind] = fresh(kind)
+                    rig.request({'op': 'writestr', 'kind': kind, 'path': 'direct', 'sent': ret_a, 'returned': ret2_a,
+                                 'concrete': repr(text)},
+                                lambda: c.setParameterFromString(mod, kind, text), rig.item(base), received=('w', kind, base))
+                # -- command with argument and result (execCommand), alternating direct / through the proxy
+                path = 'proxy' if i % 2 and kind not in nocmd else 'direct'
+                c, mod = clients[path]
+                sent_a, sent_c = fresh(kind, True)
+                ret_a, drv.script['c_' + kind] = fresh(kind)
+                rig.request({'op': 'do', 'kind': kind, 'path': path, 'sent': sent_a, 'returned': ret_a, 'concrete': repr(sent_c)},
+                            lambda: c.execCommand(mod, 'c_' + kind, sent_c), lambda res: a_tree(base, res[0]),
+                            received=('c', kind, base))
+                # -- spontaneous update of the driver: activated clients and the proxy follow; a read through the
+                #    proxy is served from the proxy's cache.  A ping is the fence: lines are processed in order.
+                if i % 2 == 0:
+                    val_a, val_c = fresh(kind)
+                    drv.script[kind] = val_c
+                    setattr(drv, kind, val_c)
+                    c, mod = clients['direct_active']
+                    if rig.fence('direct_active', c):
+                        rig.observe({'op': 'announce', 'kind': kind, 'path': 'direct_active', 'returned': val_a}, c, mod, base)
+                    c, mod = clients['proxy']
+                    if rig.fence('proxy', pxclient) and rig.fence('proxy', c):
+                        if active2:
+                            rig.observe({'op': 'announce', 'kind': kind, 'path': 'proxy', 'returned': val_a}, c, mod, base)
+                        rig.request({'op': 'read', 'kind': kind, 'path': 'proxy', 'returned': val_a},
+                                    lambda: c.readParameter(mod, kind), rig.item(base))
+            # -- the driver raises: read error (direct, then the proxy hands on what it was told), write error
+            cls = rnd.choice([HardwareError, CommunicationFailedError])
+            text = rnd.choice(['sensor %s failed' % kind, 'no answer: timeout'])
+            raised = {'cls': cls.__name__, 'text': text}
+            drv.script[kind] = lambda: cls(text)
             c, mod = clients['direct']
-            exc = rnd.choice([HardwareError('sensor %s failed' % kind), CommunicationFailedError('no answer: timeout')])
-            drv.script[kind] = exc
-            rec = {'ev': 'e2e', 'op': 'readerr', 'kind': kind, 'path': 'direct',
-                   'raised': {'cls': type(exc).__name__, 'text': exc.args[0]}}
-            item, e, rec['attempts'] = _attempt(lambda: c.readParameter(mod, kind))
-            if e is None:
-                e = item.readerror
-                rec['cache'] = {'cls': type(e).__name__, 'text': e.args[0] if e is not None and len(e.args) == 1 else repr(e)}
-            else:
-                rec['cache'] = {'cls': '?raised', 'text': repr(e)}
-                if isinstance(e, TRANSIENT):
-                    slow['direct'] = slow.get('direct', 0) + 1
-            records.append(rec)
-            drv.script[kind] = _gen_value(kind, rnd, partial=False)[1]
+            rig.request({'op': 'readerr', 'kind': kind, 'path': 'direct', 'raised': raised},
+                        lambda: c.readParameter(mod, kind), rig.readerror)
+            c, mod = clients['proxy']
+            if rig.fence('proxy', pxclient):
+                rig.request({'op': 'readerr', 'kind': kind, 'path': 'proxy', 'raised': raised},
+                            lambda: c.readParameter(mod, kind), rig.readerror)
+            for path in ('direct', 'proxy'):
+                c, mod = clients[path]
+                sent_c = fresh(kind)[1]
+                rig.request({'op': 'writeerr', 'kind': kind, 'path': path, 'raised': raised},
+                            lambda: _caught(lambda: c.setParameter(mod, kind, sent_c)), rig.error)
+            drv.script[kind] = fresh(kind)[1]
+        # -- command without argument
+        for path in ('direct', 'proxy'):
+            c, mod = clients[path]
+            none = {'j': 'atom', 'v': 'none'}
+            ret_a, drv.script['c_noarg'] = _gen_value('int', rnd)
+            rig.request({'op': 'do', 'kind': 'noarg', 'path': path, 'sent': none, 'returned': ret_a},
+                        lambda: c.execCommand(mod, 'c_noarg'), lambda res: a_tree('int', res[0]), received=('c', 'noarg', None))
     finally:
         for c, _ in clients.values():
             try:
@@ -1116,9 +1259,14 @@ def run(chk):
     lap('end_to_end')
     records = [r for recs, _ in e2e for r in recs]
     e2e_traces = [[{k: v for k, v in r.items() if k not in ('concrete', 'attempts')}] for r in records]   # one record = one trace
-    if e2e and e2e[0][1].get('proxy_factory_errors'):
+    n0 = e2e[0][1] if e2e else {}
+    if n0.get('proxy_class_error'):
+        chk.violation({'module': 'E2E', 'site': 'proxy_class', 'clause': 'a command with a struct argument can be proxied'},
+                      {'error': n0['proxy_class_error'],
+                       'reproduce': "frappy.proxy.proxy_class(cls) for a Module class with @Command(StructOf(a=IntRange()), ...) def cmd(self, a)"})
+    elif n0.get('proxy_factory_errors'):
         chk.violation({'module': 'E2E', 'site': 'proxy factory', 'clause': 'proxy node can be configured'},
-                      {'errors': e2e[0][1]['proxy_factory_errors'],
+                      {'errors': n0['proxy_factory_errors'],
                        'config': "Mod('px', 'frappy.proxy.Proxy', 'proxy', remote_class=<class>, module='drv', uri='tcp://...')"})
     verdicts, st, tr = validate_traces('Trace_ClientCache', traces + e2e_traces, 'Trace_ClientCache.cfg', timeout=1100, chunk=2500)
     chk.states += st
@@ -1141,9 +1289,14 @@ def run(chk):
             chk.case(json.dumps([r['kind'], r['path'], r['op'], r.get('sent'), r.get('returned')], sort_keys=True),
                      r['op'] == 'write')
             if v is not None:
-                chk.violation({'module': 'E2E', 'kind': r['kind'], 'op': r['op'], 'clause': v[1], 'shape': _diff_shape(r)},
+                chk.violation({'module': 'E2E', 'kind': r['kind'], 'op': r['op'], 'clause': v[1], 'shape': _diff_shape(r),
+                               'via': 'proxy' if r['path'] == 'proxy' else 'direct'},
                               {'record': r, 'path': r['path']})
-    missing = [(k, p, 'write') for k in KINDS for p in ('direct', 'direct_active', 'proxy') if (k, p, 'write') not in kinds_seen]
+    required = [('write', 'direct'), ('write', 'direct_active'), ('write', 'proxy'), ('read', 'direct'), ('read', 'proxy'),
+                ('writestr', 'direct'), ('do', 'direct'), ('do', 'proxy'), ('announce', 'direct_active'),
+                ('readerr', 'direct'), ('readerr', 'proxy'), ('writeerr', 'direct'), ('writeerr', 'proxy')]
+    missing = [(k, p, op) for k in PKINDS for op, p in required if (k, p, op) not in kinds_seen
+               and not (n0.get('proxy_class_error') and (k, p, op) == ('struct', 'proxy', 'do'))]
     if (missing or aborted) and not chk.violations:
         raise MachineryError('end-to-end cases missing (vacuous): %r %r' % (missing[:5], aborted[:1]))
     chk.sample({'trace_prefix': traces[0][:3]})
